@@ -2831,7 +2831,7 @@ class Entity(MutableMapping[str, str]):
 
             buffer.write(f'{ind}\t\t"visgroupshown" "{srctools.bool_as_int(self.vis_shown)}"\n')
             buffer.write(f'{ind}\t\t"visgroupautoshown" "{srctools.bool_as_int(self.vis_auto_shown)}"\n')
-            buffer.write(f'{ind}\t\t"logicalpos" "{self.logical_pos}"\n')
+            buffer.write(f'{ind}\t\t"logicalpos" "{escape_text(self.logical_pos)}"\n')
 
         if self.comments:
             buffer.write(f'{ind}\t\t"comments" "{escape_text(self.comments)}"\n')
